@@ -37,7 +37,7 @@ ASSUMPTIONS = [
     "their interfaces, skipping elements flagged stitch_node (as its code documents); links carry no capacities here",
     "'rejected' is checked as raised / not raised; the exception class is not compared",
 ]
-BUDGET = {"quick": 40000, "thorough": 800000}
+BUDGET = {"quick": 25000, "thorough": 800000}
 MIN_LABEL_FRACTION = {"set": 0.25, "set:3-formats": 0.05, "pools": 0.2, "pools:meet-on-node": 0.05,
                       "pools:shared-did": 0.03, "pools:conflict": 0.005, "model:single": 0.05,
                       "model:annotate": 0.05, "model:overlap-reject": 0.01, "model:with-pool": 0.04}
